@@ -236,6 +236,9 @@ class TopLevelVisitor(ast.NodeVisitor):
 
         self._finish_queue.append(calldef)
 
+    # async functions and methods are collected like ordinary ones
+    visit_AsyncFunctionDef = visit_FunctionDef
+
     def visit_ClassDef(self, node):
         """
         Args:
@@ -691,7 +694,7 @@ class TopLevelVisitor(ast.NodeVisitor):
         if node.decorator_list:
             # Decorators can throw off the line the function is declared on
             linex = node.lineno - 1
-            pattern = r'\s*def\s*' + node.name
+            pattern = r'\s*(async\s+)?def\s*' + node.name
             # I think this is actually robust
             while not re.match(pattern, self.sourcelines[linex]):
                 linex += 1
